@@ -23,7 +23,7 @@ def run(ctx: Ctx):
     ilp.check_formulation(ctx, F, {"problems": "R-C02-1", "objective": "R-C02-1", "same-candidates": "R-C02-6", "variable": "R-C02-6"},
                           1.0, 1.0, "partition")
     ctx.floor("R-C02-1", 2, "objectives (one per solver branch)")
-    nbk.check_candidates(ctx, {"c2n": "R-C02-2", "filter-op": "R-C02-2", "threshold": "R-C02-2",
+    nbk.check_candidates(ctx, {"c2n": "R-C02-2", "filter-op": "R-C02-2", "threshold": "R-C02-2", "filter-extra": "R-C02-2",
                                "cost-domain": "R-C02-3", "cost-term": "R-C02-3", "final-normalise": "R-C02-3",
                                "matrix-domain": "R-C02-4", "matrix-alloc": "R-C02-4", "matrix-cover": "R-C02-4",
                                "source": "R-C02-5", "sizes-with-null": "R-C02-5", "append": "R-C02-6", "final-return": "R-C02-6"})
